@@ -455,6 +455,8 @@ def _params_levels(node, path=()):
     out = []
     if isinstance(node, dict):
         names = set(node.get("params_map") or ()) | set(node.get("outer_params_map") or ())
+        if node.get("params"):
+            names.add("*")   # .params() for every named bind built so far
         if names:
             out.append((path, names))
         for k, v in node.items():
@@ -470,7 +472,7 @@ def _sibling_params_conflict(spec):
     lv = _params_levels(spec)
     for i, (p1, n1) in enumerate(lv):
         for p2, n2 in lv[i + 1:]:
-            if n1 & n2 and p1[:len(p2)] != p2 and p2[:len(p1)] != p1:
+            if (n1 & n2 or "*" in n1 or "*" in n2) and p1[:len(p2)] != p2 and p2[:len(p1)] != p1:
                 return True
     return False
 
